@@ -1,34 +1,33 @@
-"""Per-property configuration of the driver (what to build, how many batches, watchdogs)."""
+"""Per-property configuration of the driver: one JSON file per property under checks.d/.
 
+Keys: id, kind (go|py), module, pkg | script, level, technique, batches{quick,thorough},
+watchdog_s{quick,thorough}, race{quick,thorough: no|only|both}, text, design_ref, note,
+optional threads_per_child, race_slowdown.
+"""
+import glob
+import json
+import os
 
-def go(pid, level, technique, batches=(4, 16), watchdog=(300, 1500), race=None, module="harness", **kw):
-    d = {
-        "id": pid, "kind": "go", "module": module, "pkg": f"./cmd/{pid.lower()}", "level": level,
-        "technique": technique,
-        "batches": {"quick": batches[0], "thorough": batches[1]},
-        "watchdog_s": {"quick": watchdog[0], "thorough": watchdog[1]},
-        "race": race or {"quick": "no", "thorough": "no"},
-    }
-    d.update(kw)
-    return d
+HERE = os.path.dirname(os.path.abspath(__file__))
+ALL = ["C%02d" % i for i in range(1, 21)]
 
+CHECKS = {}
+TEXTS = {}
+for path in sorted(glob.glob(os.path.join(HERE, "checks.d", "C*.json"))):
+    with open(path) as f:
+        c = json.load(f)
+    if c.get("disabled"):
+        continue
+    CHECKS[c["id"]] = c
+    TEXTS[c["id"]] = {"text": c["text"], "design_ref": c["design_ref"], "note": c["note"]}
 
-CHECKS = {
-    "C01": go("C01", "exploration",
-              "runtime monitor: hierarchical fixed-window reference model (4 window conventions) over verdict histories on a virtual clock + porcupine linearizability of frozen-clock concurrent rounds",
-              batches=(8, 16), race={"quick": "no", "thorough": "both"}),
-}
+_REASONS = {}
+_rp = os.path.join(HERE, "checks.d", "not_applicable.json")
+if os.path.exists(_rp):
+    with open(_rp) as f:
+        _REASONS = json.load(f)
 
-TEXTS = {
-    "C01": {
-        "text": "Held on the executions produced: thousands of generated quota hierarchies x arrival histories on a boundary-rich virtual time grid through the real streams.Stream, judged by a reference model under every admissible window convention, plus porcupine-checked concurrent rounds. Exploration is the right level: the property quantifies over unbounded histories and schedules, which a monitor can only sample.",
-        "design_ref": "DESIGN.md §5 C01",
-        "note": "Trusts: the virtual clock installed through SetClockForVerif is the only time source of the quota code; verdict read from the returned actions; window convention left free (4 variants); Redis-backed shared state not exercised (in-memory state only).",
-    },
-}
-
-# Properties not (yet) claimed. Kept current as checks are added.
 NOT_APPLICABLE = [
-    {"property_id": p, "reason": "check under construction in this session; not claimed until it runs silently on the unchanged tree"}
-    for p in ["C02", "C03", "C04", "C05", "C06", "C07", "C08", "C09", "C10", "C11", "C12", "C13", "C14", "C15", "C16", "C17", "C18", "C19", "C20"]
+    {"property_id": p, "reason": _REASONS.get(p, "check not built yet in this session; not claimed until it runs silently on the unchanged tree")}
+    for p in ALL if p not in CHECKS
 ]
